@@ -201,8 +201,152 @@ def valid_positions(model, rng, n, styles=None, extra=()):
     return out
 
 
+def filter_valid(model, fens):
+    """The subset of the given FENs inside the property quantifier (extracted valid_position), duplicates removed."""
+    fens = list(dict.fromkeys(fens))
+    rc, res, err = run_lines(model, ["valid " + f for f in fens], shards=NPROC)
+    return [f for f, r in zip(fens, res) if r == "1"]
+
+
 def playouts(model, rng, starts, plies, bias=None):
     """Random legal games from the given start FENs, played by the extracted rules."""
     lines = ["playout %d %d %d %s" % (rng.randrange(1 << 30), plies, rng.randrange(0, 10) if bias is None else bias, f) for f in starts]
     rc, res, err = run_lines(model, lines, shards=NPROC)
     return [(f, (r or "").split()) for f, r in zip(starts, res)]
+
+
+# ------------------------------------------------------------------------------------------------
+# "two things at once" templates: moves that combine several special effects in ONE move (promotion
+# that captures a home-corner rook whose castling right is still live, en passant that uncovers a
+# slider, castling with a rook check, king/rook captures that revoke rights, double pushes next to
+# pawns ...).  Every legal move of each template position is then played as its own game, so the rare
+# branch is exercised deterministically instead of being hoped for in random play.
+
+def combo_positions(rng, n):
+    out = []
+    corner = {"a8": (56, "r", "q", 49, "P"), "h8": (63, "r", "k", 54, "P"), "a1": (0, "R", "Q", 9, "p"), "h1": (7, "R", "K", 14, "p")}
+    for _ in range(n):
+        board = {4: "K", 60: "k"}
+        rights = ""
+        for name, (rs, rook, flag, ps, pawn) in corner.items():
+            if rng.random() < 0.85:
+                board[rs] = rook
+                if rng.random() < 0.9:
+                    rights += flag
+        # promoting pawns next to the corners (capture onto the rook) - one colour to move
+        stm = rng.choice("wb")
+        for name, (rs, rook, flag, ps, pawn) in corner.items():
+            if (pawn == "P") == (stm == "w") and rng.random() < 0.8 and ps not in board:
+                board[ps] = pawn
+        # sometimes a minor piece or queen that can also take the corner rook
+        for _ in range(rng.randrange(0, 4)):
+            s = rng.randrange(64)
+            if s not in board and s // 8 not in (0, 7):
+                board[s] = rng.choice("NBQnbq")
+        rights = "".join(c for c in "KQkq" if c in rights)
+        out.append(board_to_fen(board, stm, rights, None, rng.choice([0, 3, 49, 99]), rng.choice([1, 20])))
+    # fixed seeds of the same family (every corner, both colours, rights live)
+    out += ["r3k2r/1P4P1/8/8/8/8/8/4K3 w kq - 0 1", "4k3/8/8/8/8/8/1p4p1/R3K2R b KQ - 0 1",
+            "r3k2r/1P4P1/8/8/8/8/1p4p1/R3K2R w KQkq - 3 9", "r3k2r/1P4P1/8/8/8/8/1p4p1/R3K2R b KQkq - 3 9",
+            "r3k2r/6P1/8/8/8/8/8/4K3 w kq - 0 1", "r3k2r/p1ppqpb1/bn2pnp1/3PN3/1p2P3/2N2Q2/PPPBBPpP/R3K2R b KQkq - 0 2"]
+    return out
+
+
+def all_moves_games(model, fens, tail=()):
+    """For every legal move m of every fen: the game [m] (+ optional fixed tail tokens, e.g. 'u' for walk scripts)."""
+    rc, res, err = run_lines(model, ["legal " + f for f in fens], shards=NPROC)
+    games = []
+    for f, r in zip(fens, res):
+        toks = (r or "").split()
+        for m in toks[1:]:
+            games.append((f, [m] + list(tail)))
+    return games
+
+
+# ------------------------------------------------------------------------------------------------
+# systematic king-ray templates: (colour, king square, direction, own blocker kind at distance d1, enemy
+# piece at distance d2 > d1).  Covers every pinned-piece branch of the generator, in particular pinned
+# pawns on every rank (including the promotion rank with the pinner adjacent = capturable).
+
+DIRS8 = [(0, 1), (1, 1), (1, 0), (1, -1), (0, -1), (-1, -1), (-1, 0), (-1, 1)]
+
+
+def pin_positions(rng, n):
+    must, rest = [], []
+    for white in (True, False):
+        for k in range(64):
+            kf, kr = k % 8, k // 8
+            for (df, dr) in DIRS8:
+                for d1 in (1, 2, 3):
+                    for gap in (1, 2, 3):
+                        d2 = d1 + gap
+                        f1, r1, f2, r2 = kf + df * d1, kr + dr * d1, kf + df * d2, kr + dr * d2
+                        if not (0 <= f2 < 8 and 0 <= r2 < 8):
+                            continue
+                        for blocker in "PNBRQ":
+                            if blocker == "P" and r1 in (0, 7):
+                                continue
+                            for slider in ("QRB" if rng.random() < 0.3 else ("QR" if 0 in (df, dr) else "QB")):
+                                t = (white, k, sq(f1, r1), blocker, sq(f2, r2), slider, df, dr)
+                                promo_rank = blocker == "P" and r1 == (6 if white else 1)
+                                (must if promo_rank else rest).append(t)
+    rng.shuffle(rest)
+    out = []
+    for (white, k, b, blocker, s, slider, df, dr) in must + rest[: max(0, n - len(must))]:
+        board = {k: "K" if white else "k", b: blocker if white else blocker.lower(), s: slider.lower() if white else slider}
+        # the other king far away
+        cands = [x for x in range(64) if x not in board and max(abs(x % 8 - k % 8), abs(x // 8 - k // 8)) > 1]
+        board[rng.choice(cands)] = "k" if white else "K"
+        # bait: enemy pieces on the pawn's capture squares / own pieces elsewhere
+        if blocker == "P":
+            fwd = 1 if white else -1
+            for dfc in (-1, 1):
+                t = (b % 8 + dfc, b // 8 + fwd)
+                if 0 <= t[0] < 8 and 0 <= t[1] < 8 and sq(*t) not in board and rng.random() < 0.5:
+                    board[sq(*t)] = rng.choice("nbrq" if white else "NBRQ")
+        for _ in range(rng.randrange(0, 3)):
+            x = rng.randrange(64)
+            if x not in board:
+                pc = rng.choice("NBRQPnbrqp")
+                if not (pc in "Pp" and x // 8 in (0, 7)):
+                    board[x] = pc
+        out.append(board_to_fen(board, "w" if white else "b", "", None, 0, 1))
+    return out
+
+
+def long_shuffle_games(rng, count, max_segments=16):
+    """Scripted legal games from the start position, several hundred plies long: pawn steps (clock resets) interleaved with
+    knight / rook shuffle cycles (2- and 3-fold repetitions at every game length, rights lost in between)."""
+    games = []
+    for _ in range(count):
+        wp = ["a2a3", "b2b3", "c2c3", "d2d3", "e2e3", "g2g3", "h2h3"]
+        bp = ["a7a6", "b7b6", "c7c6", "d7d6", "e7e6", "g7g6", "h7h6"]
+        w2 = {"a2a3": "a3a4", "b2b3": "b3b4", "c2c3": "c3c4", "d2d3": "d3d4", "e2e3": "e3e4", "g2g3": "g3g4", "h2h3": "h3h4"}
+        b2 = {"a7a6": "a6a5", "b7b6": "b6b5", "c7c6": "c6c5", "d7d6": "d6d5", "e7e6": "e6e5", "g7g6": "g6g5", "h7h6": "h6h5"}
+        rng.shuffle(wp)
+        rng.shuffle(bp)
+        wq, bq = list(wp), list(bp)
+        ms = []
+        a_moved_w = a_moved_b = False
+        for seg in range(rng.randrange(6, max_segments + 1)):
+            if not wq or not bq:
+                break
+            w, b = wq.pop(0), bq.pop(0)
+            if w in w2 and rng.random() < 0.8:
+                wq.append(w2[w])
+            if b in b2 and rng.random() < 0.8:
+                bq.append(b2[b])
+            ms += [w, b]
+            a_moved_w |= w == "a2a3"
+            a_moved_b |= b == "a7a6"
+            cyc = rng.choice([1, 2, 2, 3, 5, 8, 12])
+            kind = rng.random()
+            for _c in range(cyc):
+                if kind < 0.25 and a_moved_w and a_moved_b:
+                    ms += ["a1a2", "a8a7", "a2a1", "a7a8"]
+                elif kind < 0.5:
+                    ms += ["b1c3", "b8c6", "c3b1", "c6b8"] if "c2c3" not in ms and "c7c6" not in ms else ["g1f3", "g8f6", "f3g1", "f6g8"]
+                else:
+                    ms += ["g1f3", "g8f6", "f3g1", "f6g8"]
+        games.append((START, ms))
+    return games
